@@ -247,67 +247,89 @@ structure MergeSt where
   out : Array Gate
   last : List (Nat × Nat)        -- qubit ↦ index into `out`
 
+/-- the "record" branch: the gate is appended and becomes the last gate of each of its qubits -/
+def MergeSt.record (st : MergeSt) (gate : Gate) : MergeSt :=
+  let qs := gate.qubits
+  let pos := st.out.size
+  { out := st.out.push gate, last := qs.map (fun q => (q, pos)) ++ st.last.filter (fun p => !qs.contains p.1) }
+
+def MergeSt.lastOf (st : MergeSt) (q : Nat) : Option Nat := (st.last.find? (·.1 == q)).map (·.2)
+
+/-- one iteration of the `merge_rotations` loop (`width`: a qubit above it is a KeyError in the code) -/
+def mergeStep (eqv : Gate → Gate → Bool) (width : Nat) (st : MergeSt) (gate : Gate) : Except Err MergeSt :=
+  let qs := gate.qubits
+  let prevs : List (Option Nat) := qs.map st.lastOf
+  if qs.any (fun q => q ≥ width) then Except.error Err.key
+  else if prevs.any (·.isNone) then Except.ok (st.record gate)
+  else
+    let prevGates := prevs.filterMap (fun p => p.bind (fun i => st.out[i]?))
+    match prevGates, prevs with
+    | g0 :: _, some i0 :: _ =>
+      if prevGates.all (fun gg => eqv gg g0) then
+        if rotMergeSet.contains gate.name && gate.name == g0.name && gate.target == g0.target && gate.control == g0.control then
+          match addParam g0.param gate.param with
+          | .ok p => Except.ok { st with out := st.out.set! i0 { g0 with isVar := g0.isVar || gate.isVar, param := p } }
+          | .error e => Except.error e
+        else Except.ok (st.record gate)
+      else Except.ok (st.record gate)
+    | _, _ => Except.ok (st.record gate)
+
 /-- module-level `merge_rotations(circuit)`; `eqv` is the gate equality used by the code -/
 def mergeRotationsWith (eqv : Gate → Gate → Bool) (c : Circuit) : Except Err Circuit := do
-  let step := fun (st : MergeSt) (gate : Gate) =>
-    let qs := gate.qubits
-    let prevs : List (Option Nat) := qs.map (fun q => (st.last.find? (·.1 == q)).map (·.2))
-    let record := fun (st : MergeSt) =>
-      let pos := st.out.size
-      { out := st.out.push gate, last := qs.map (fun q => (q, pos)) ++ st.last.filter (fun p => !qs.contains p.1) : MergeSt }
-    -- a qubit above the width is a KeyError in the code
-    if qs.any (fun q => q ≥ c.width) then Except.error Err.key
-    else if prevs.any (·.isNone) then Except.ok (record st)
-    else
-      let prevGates := prevs.filterMap (fun p => p.bind (fun i => st.out[i]?))
-      match prevGates, prevs with
-      | g0 :: _, some i0 :: _ =>
-        if prevGates.all (fun gg => eqv gg g0) then
-          if rotMergeSet.contains gate.name && gate.name == g0.name && gate.target == g0.target && gate.control == g0.control then
-            match addParam g0.param gate.param with
-            | .ok p => Except.ok { st with out := st.out.set! i0 { g0 with isVar := g0.isVar || gate.isVar, param := p } }
-            | .error e => Except.error e
-          else Except.ok (record st)
-        else Except.ok (record st)
-      | _, _ => Except.ok (record st)
-  let st ← c.gates.foldlM step { out := #[], last := [] }
+  let st ← c.gates.foldlM (mergeStep eqv c.width) { out := #[], last := [] }
   ofGates st.out.toList Option.none
+
+/-- state of the `remove_redundant_gates` loop: per qubit the stack of gate positions (most recent first), and the
+    positions marked for removal -/
+abbrev RRSt := List (Nat × List Nat) × List Nat
+
+def rrStackOf (stacks : List (Nat × List Nat)) (q : Nat) : List Nat :=
+  match stacks.find? (·.1 == q) with
+  | some (_, s) => s
+  | Option.none => []
+
+def rrTop (stacks : List (Nat × List Nat)) (q : Nat) : Option Nat := (rrStackOf stacks q).head?
+
+/-- the loop over the qubits of the gate stops at the first qubit that fails; `.inverse()` may raise -/
+def rrCheck (eqv : Gate → Gate → Bool) (gates : List Gate) (stacks : List (Nat × List Nat)) (gate : Gate) :
+    List Nat → Except Err Bool
+  | [] => .ok true
+  | q :: rest => match rrTop stacks q with
+    | Option.none => .ok false
+    | some i => match gates[i]? with
+      | Option.none => .ok false
+      | some gp => match gp.inverse with
+        | Option.none => .error Err.attr
+        | some gpi => if eqv gpi gate then rrCheck eqv gates stacks gate rest else .ok false
+
+def rrPush (gi : Nat) (stacks : List (Nat × List Nat)) (q : Nat) : List (Nat × List Nat) :=
+  if stacks.any (·.1 == q) then stacks.map (fun (q', s) => if q' == q then (q', gi :: s) else (q', s))
+  else (q, [gi]) :: stacks
+
+/-- position of the gate the current one cancels: the top of the stack of its first qubit -/
+def rrFirst (stacks : List (Nat × List Nat)) (qs : List Nat) : Nat :=
+  match qs.head? with
+  | some q => (rrTop stacks q).getD 0
+  | Option.none => 0
+
+/-- one iteration of the loop -/
+def rrStep (eqv : Gate → Gate → Bool) (gates : List Gate) (width : Nat) (acc : RRSt) (p : Nat × Gate) : Except Err RRSt :=
+  let (stacks, removed) := acc
+  let (gi, gate) := p
+  let qs := gate.qubits
+  if qs.any (fun q => q ≥ width) then Except.error Err.key
+  else
+    match rrCheck eqv gates stacks gate qs with
+    | .error e => Except.error e
+    | .ok true =>
+      let first := rrFirst stacks qs
+      let stacks' := stacks.map (fun (q, s) => if qs.contains q then (q, s.drop 1) else (q, s))
+      Except.ok (stacks', gi :: first :: removed)
+    | .ok false => Except.ok (qs.foldl (rrPush gi) stacks, removed)
 
 /-- module-level `remove_redundant_gates(circuit, remove_qubits)` -/
 def removeRedundantWith (eqv : Gate → Gate → Bool) (c : Circuit) (removeQubits : Bool) : Except Err Circuit := do
-  -- per qubit: stack of gate positions (most recent first)
-  let step := fun (acc : List (Nat × List Nat) × List Nat) (p : Nat × Gate) =>
-    let (stacks, removed) := acc
-    let (gi, gate) := p
-    let qs := gate.qubits
-    if qs.any (fun q => q ≥ c.width) then Except.error Err.key
-    else
-      let top := fun q => match stacks.find? (·.1 == q) with
-        | some (_, i :: _) => some i
-        | _ => Option.none
-      -- the loop over qubits stops at the first qubit that fails; `.inverse()` may raise
-      let rec check (l : List Nat) : Except Err Bool :=
-        match l with
-        | [] => .ok true
-        | q :: rest => match top q with
-          | Option.none => .ok false
-          | some i => match c.gates[i]? with
-            | Option.none => .ok false
-            | some gp => match gp.inverse with
-              | Option.none => .error Err.attr
-              | some gpi => if eqv gpi gate then check rest else .ok false
-      match check qs with
-      | .error e => Except.error e
-      | .ok true =>
-        let first := match qs.head? with | some q => (top q).getD 0 | Option.none => 0
-        let stacks' := stacks.map (fun (q, s) => if qs.contains q then (q, s.drop 1) else (q, s))
-        Except.ok (stacks', gi :: first :: removed)
-      | .ok false =>
-        let pushQ := fun (stacks : List (Nat × List Nat)) q =>
-          if stacks.any (·.1 == q) then stacks.map (fun (q', s) => if q' == q then (q', gi :: s) else (q', s))
-          else (q, [gi]) :: stacks
-        Except.ok (qs.foldl pushQ stacks, removed)
-  let (_, removed) ← c.gates.zipIdx.map (fun (g, i) => (i, g)) |>.foldlM step ([], [])
+  let (_, removed) ← (c.gates.zipIdx.map (fun (g, i) => (i, g))).foldlM (rrStep eqv c.gates c.width) ([], [])
   let gs := (c.gates.zipIdx.filter (fun (_, i) => !removed.contains i)).map (·.1)
   if removeQubits then ofGates gs Option.none else ofGates gs (some c.width)
 
